@@ -74,7 +74,9 @@ Fixpoint eval_segs_m (e : menv) (l : list segment) : M bytes :=
   | SDollar :: r => eval_segs_m e r
   | SExpr ex sp :: r =>
       mbind (mlookup e ex) (fun v =>
-      mbind (eval_segs_m e r) (fun o => mret (format_value v (spec_of sp) ++ o)))
+      if spec_supported v (spec_of sp) then
+        mbind (eval_segs_m e r) (fun o => mret (format_value v (spec_of sp) ++ o))
+      else inr EUnsupported)
   end.
 
 Definition eval_quoted_m (e : menv) (s : bytes) : M bytes :=
@@ -91,13 +93,15 @@ Definition eval_arg_m (e : menv) (a : xarg) : M value :=
   | XRef n => mlookup e n
   end.
 
-(* write_number / write_string(c_str) *)
-Definition value_bytes (v : value) : bytes := match v with VInt z => dec z | VStr s => cstr s end.
-Definition farg_of (v : value) : farg := match v with VInt z => FInt z | VStr s => FStr s end.
+(* write_number / write_string(c_str); a double printed by print/println or passed to a printf directive goes
+   through write_numeric_value / %f, which are outside the model *)
+Definition is_flt (v : value) : bool := match v with VFlt _ _ _ => true | _ => false end.
+Definition value_bytes (v : value) : bytes := match v with VInt z => dec z | VStr s => cstr s | VFlt _ _ _ => [] end.
+Definition farg_of (v : value) : farg := match v with VInt z => FInt z | VStr s => FStr s | VFlt _ _ _ => FInt 0 end.
 
 (* print_value: evaluate, then write *)
 Definition print_value_m (e : menv) (a : xarg) : M unit :=
-  mbind (eval_arg_m e a) (fun v => emit (value_bytes v)).
+  mbind (eval_arg_m e a) (fun v => if is_flt v then inr EUnsupported else emit (value_bytes v)).
 
 (* the print_argument lambda of print_multiple *)
 Definition print_argument_m (e : menv) (a : xarg) : M unit :=
@@ -118,7 +122,9 @@ Fixpoint join_values_m (e : menv) (first : bool) (l : list xarg) : M unit :=
 Fixpoint collect_m (e : menv) (l : list xarg) : M (list farg) :=
   match l with
   | [] => mret []
-  | a :: r => mbind (eval_arg_m e a) (fun v => mbind (collect_m e r) (fun xs => mret (farg_of v :: xs)))
+  | a :: r => mbind (eval_arg_m e a) (fun v =>
+              if is_flt v then inr EUnsupported
+              else mbind (collect_m e r) (fun xs => mret (farg_of v :: xs)))
   end.
 
 Definition is_fmt_literal_x (a : xarg) : option bytes :=
